@@ -19,13 +19,13 @@ func init() {
 			"is cut by a decryption success edge and by a destination-validation success edge; the payload and address sent are results 0 and 1 of that validation, applied to this datagram's plaintext; inside the validation the IP validator sees the resolved address that " +
 			"is returned, and the payload is exactly the bytes after the parsed address; (KEYBIND) an existing association decrypts with the key bound to the entry found, that key never changes, Add binds the key that decrypted the first datagram and replies are packed with the " +
 			"association's key; (NOALIAS/OWNBUF) trial decryption writes into a buffer distinct from the ciphertext and both are owned by the listener loop, reply buffers are owned by the association goroutine; (REPLYADDR) each reply carries " +
-			"socks.ParseAddr(String()) of this iteration's source and is sent, as packed, to the association's own client address, and the buffer replies are read into reaches the very end of the packet buffer Pack encrypts in, so an oversize reply fails to pack instead of being relayed cut short; (SEARCH) the key search tries every key.",
+			"socks.ParseAddr(String()) of this iteration's source and is sent, as packed, to the association's own client address, and the buffer replies are read into reaches the very end of the packet buffer Pack encrypts in, so an oversize reply fails to pack instead of being relayed cut short; (SEARCH) the key search tries every key. (STAGES) the address header is parsed only from a datagram that decrypted; a reply is packed at most once on any path; every fixed-size sender address form (7 and 19 bytes) passes the reply path's length guard; (SNAPSHOT) the snapshot searched holds every key; (BUFSIZE) every constant-size datagram read buffer holds the largest UDP payload (65507 bytes).",
 		NotDecided: "AEAD correctness, fresh-salt randomness (SDK Pack), byte equality of relayed payloads.",
 	})
 	register(&PropDef{ID: "C04", Level: "other", Run: runC04,
 		Explanation: "Association identity structure: (NATKEY) the table is keyed by String() of the whole source address of the datagram (lookup) and of Add's own client address (insert/delete), the same value on each path; (OWNSOCK) the socket created for a new client " +
 			"flows only into one natmap.Add, sockets and associations are created only on the Get == nil edge, Add starts exactly one reply goroutine bound to (its client address, its listener, the entry it stored) and the entry wraps the socket passed in; " +
-			"(CREATE) association creation is cut by authentication and destination validation (SENDGUARD); (OWNBUF) reply buffers are per association; (REPLYADDR) replies go only to the association's client; (TEARDOWN/SOLEDELETER) an entry is removed only by its own goroutine under the key it was inserted with.",
+			"(CREATE) association creation is cut by authentication and destination validation (SENDGUARD); (OWNBUF) reply buffers are per association; (REPLYADDR) replies go only to the association's client; (TEARDOWN/SOLEDELETER) an entry is removed only by its own goroutine under the key it was inserted with. (LOOKUP) the table lookup returns what the table holds under the key — nil only when nothing is stored there — so at most one live association exists per key; the reply length guard admits IPv4 and IPv6 sender addresses.",
 		NotDecided: "kernel source-address selection, behaviour across expiry races at run time.",
 	})
 	register(&PropDef{ID: "C05", Level: "other", Run: runC05,
@@ -39,7 +39,7 @@ func init() {
 	register(&PropDef{ID: "C16", Level: "other", Run: runC16,
 		Explanation: "Call discipline of UDP metrics on all paths: (ENTRY) Add reports the new association exactly once with the key id of the search that authenticated it, removal is reported exactly once (TEARDOWN); (CLIENT) per loop iteration the client packet is reported at most once, " +
 			"exactly when an association exists (an association found or created is recorded in the tested variable on every path from that point), with this iteration's ReadFrom size and this iteration's target write size held in a per-iteration variable (zero when nothing was sent) and a status that is \"OK\" or the error's status; (TARGET) per reply iteration the target packet is reported " +
-			"exactly once unless the loop expired, with this iteration's read size and the byte count returned by the write to the client, both per-iteration variables; (ARITY) every WithLabelValues in the metrics adapters passes as many values as the vector has variable labels; (WIRING) the four sizes map to the c>p, p>t, p<t, c<p direction labels.",
+			"exactly once unless the loop expired, with this iteration's read size and the byte count returned by the write to the client, both per-iteration variables; (ARITY) every WithLabelValues in the metrics adapters passes as many values as the vector has variable labels; (WIRING) the four sizes map to the c>p, p>t, p<t, c<p direction labels. (STAGES) decrypt, then parse/validate, then send, so the first failing stage names the status; (BUFSIZE) datagram read buffers hold the largest UDP payload, so sizes reported are wire sizes.",
 		NotDecided: "numeric equality of per-key sums with the bytes on the sockets.",
 	})
 }
